@@ -10,7 +10,7 @@ use std::collections::BTreeSet;
 use std::sync::atomic::{AtomicU64, Ordering};
 use std::sync::{Arc, Mutex};
 
-const CALLS: [(&str, &str); 18] = [
+const CALLS: [(&str, &str); 20] = [
   ("All", r#"{A: 5, S: "abcz"}"#),
   ("Quote", r#"{A: 500, S: "xyz"}"#),
   ("All", r#"{A: 42, S: "aeiouz"}"#),
@@ -32,6 +32,10 @@ const CALLS: [(&str, &str); 18] = [
   // a decision table none of whose rules matches: the default output entry is an expression over the input
   ("Def", r#"{A: 5}"#),
   ("Def", r#"{A: 42}"#),
+  // three hundred invocations of a function of two parameters with one argument (each is null), then proper invocations,
+  // positional and named, of another function
+  ("Batch", r#"{A: 5}"#),
+  ("Gross", r#"{A: 100}"#),
 ];
 
 fn ctx(text: &str) -> FeelContext {
